@@ -119,11 +119,25 @@ func RunC05(c *engine.Ctx) {
 						engine.Fatal("reference encrypt: %v", rerr)
 					}
 					var got []byte
-					if pn := safely(func() { got, err = g.DecryptMessage(key, append([]byte{}, rct...), u) }); pn != "" {
+					buf := append([]byte{}, rct...)
+					kbuf := append([]byte{}, key...)
+					if pn := safely(func() { got, err = g.DecryptMessage(kbuf, buf, u) }); pn != "" {
 						c.Violate("dec", fmt.Sprintf("dec:et%d:panic", et), map[string]interface{}{"panic": pn}, cs)
 						continue
 					}
 					c.Add("evaluations", 1)
+					// the caller's buffers must be left alone and a second decryption of the same buffer must succeed too
+					if !bytes.Equal(buf, rct) || !bytes.Equal(kbuf, key) {
+						c.Violate("dec", fmt.Sprintf("dec:et%d:modifies-caller-buffers", et), map[string]interface{}{"ciphertext_changed": !bytes.Equal(buf, rct), "key_changed": !bytes.Equal(kbuf, key)}, cs)
+						continue
+					}
+					if l%16 == 3 {
+						got2, err2 := g.DecryptMessage(kbuf, buf, u)
+						if err2 != nil || !bytes.Equal(got2, got) {
+							c.Violate("dec", fmt.Sprintf("dec:et%d:second-decryption-differs", et), map[string]interface{}{"err": fmt.Sprint(err2)}, cs)
+							continue
+						}
+					}
 					if err != nil {
 						c.Violate("dec", fmt.Sprintf("dec:et%d:rejects-reference-ciphertext:%s", et, usageClass(u)), map[string]interface{}{"err": err.Error(), "ct": hex.EncodeToString(rct)}, cs)
 						continue
@@ -160,6 +174,7 @@ func RunC05(c *engine.Ctx) {
 			}
 		}
 	}
+	aliasHistories(c)
 	if len(jlines) > 0 {
 		ans, err := engine.JRefBatch("KrbOracle", jlines)
 		if err != nil {
@@ -185,4 +200,49 @@ func RunC05(c *engine.Ctx) {
 	c.Add("transitions", ev)
 	c.Add("traces_validated_against_impl", ev)
 	c.Cov["rule"] = "full product etype(6) x plaintext length 0..130 x usage set x keys x 2 directions; distinct = (etype,len,usage) cells in which both directions agreed with the reference"
+}
+
+// aliasHistories: operation sequences in which the caller reuses one key
+// buffer, overwriting it in place between calls (A, B, A) and one data buffer;
+// every call must behave as for fresh buffers (no state carried over by
+// reference).
+func aliasHistories(c *engine.Ctx) {
+	r := rand.New(rand.NewSource(c.Seed + 5))
+	for _, et := range rcrypto.Etypes {
+		p, _ := rcrypto.Get(et)
+		g := goET(et)
+		ks := keys(et, 2, c.Seed+9)
+		kb := make([]byte, len(ks[0]))
+		pt := randBytes(r, 40)
+		for _, u := range []uint32{3, 11, 24} {
+			for step, which := range []int{0, 1, 0, 1, 1, 0} {
+				copy(kb, ks[which])
+				cs := c05case{Etype: et, Len: len(pt), Usage: u, Key: hex.EncodeToString(ks[which]), Dir: fmt.Sprintf("alias-history step %d (key buffer overwritten in place)", step)}
+				_, ct, err := g.EncryptMessage(kb, append([]byte{}, pt...), u)
+				c.Add("evaluations", 1)
+				if err != nil {
+					c.Violate("alias", fmt.Sprintf("alias:et%d:encrypt-error", et), map[string]interface{}{"err": err.Error()}, cs)
+					continue
+				}
+				if _, back, derr := rcrypto.Decrypt(et, ks[which], u, ct); derr != nil || !expectPlain(et, pt, back) {
+					c.Violate("alias", fmt.Sprintf("alias:et%d:encrypts-under-stale-key", et), map[string]interface{}{"err": fmt.Sprint(derr)}, cs)
+					continue
+				}
+				rct, _ := rcrypto.EncryptWithConfounder(et, ks[which], u, randBytes(r, p.Conf), pt)
+				got, err := g.DecryptMessage(kb, rct, u)
+				c.Add("evaluations", 1)
+				if err != nil || !expectPlain(et, pt, got) {
+					c.Violate("alias", fmt.Sprintf("alias:et%d:decrypts-under-stale-key", et), map[string]interface{}{"err": fmt.Sprint(err)}, cs)
+					continue
+				}
+				// a ciphertext made under the other key must not decrypt now
+				oct, _ := rcrypto.EncryptWithConfounder(et, ks[1-which], u, randBytes(r, p.Conf), pt)
+				if out, err := g.DecryptMessage(kb, oct, u); err == nil || len(out) != 0 {
+					c.Violate("alias", fmt.Sprintf("alias:et%d:accepts-other-keys-ciphertext", et), nil, cs)
+					continue
+				}
+				c.Distinct(fmt.Sprintf("alias/%d/%d/%d", et, u, step))
+			}
+		}
+	}
 }
